@@ -30,125 +30,183 @@ J2000 = datetime(2000, 1, 1)
 # independent writer (SP3-c / SP3-d: "The Extended Standard Product 3 Orbit Format", Hilla 2010/2016)
 
 
-def f14_6(rng, kind):
-    """(text of an F14.6 field, Fraction | None for a sentinel)"""
+def micro(rng, kind):
+    """a value of an F14.6 field in units of 1e-6 (None-free: the sentinels are the values 0 and 999999999999)"""
     if kind == "pos":
         k = rng.random()
         if k < 0.06:
-            return f"{0.0:14.6f}", None
-        if k < 0.12:  # the smallest non-zero values next to the 0.000000 sentinel
-            v = Fraction(rng.choice([1, -1, 2, -2, 10, -10]), 10**6)
-        else:
-            v = Fraction(rng.randint(-45_000_000_000, 45_000_000_000), 10**6)
-            if v == 0:
-                v = Fraction(1, 10**6)
-    else:
-        k = rng.random()
-        if k < 0.08:
-            return "999999.999999".rjust(14), None
-        if k < 0.14:  # values next to the 999999.999999 sentinel (and its negative, which is an ordinary value)
-            v = Fraction(rng.choice([999_999_999_998, 999_999_999_997, 999_999_999_990, -999_999_999_999, -999_999_999_998,
-                                     999_999_000_000, 1, -1, 0]), 10**6)
-        else:
-            v = Fraction(rng.randint(-999_999_000_000, 999_999_000_000), 10**6)
-    s = "-" if v < 0 else ""
-    a = abs(v)
-    t = f"{s}{a.numerator * 10**6 // a.denominator // 10**6}.{a.numerator * 10**6 // a.denominator % 10**6:06d}"
-    return t.rjust(14), v
+            return 0                                            # 0.000000: bad or absent
+        if k < 0.12:                                            # the smallest non-zero values next to the sentinel
+            return rng.choice([1, -1, 2, -2, 10, -10])
+        v = rng.randint(-45_000_000_000, 45_000_000_000)
+        return v or 1
+    k = rng.random()
+    if k < 0.08:
+        return 999_999_999_999                                  # 999999.999999: bad or absent
+    if k < 0.14:  # values next to the sentinel (and its negative, which is an ordinary value)
+        return rng.choice([999_999_999_998, 999_999_999_997, 999_999_999_990, -999_999_999_999, -999_999_999_998,
+                           999_999_000_000, 1, -1, 0])
+    return rng.randint(-999_999_000_000, 999_999_000_000)
 
 
-def gen_file(rng, quick):
+def gen_model(rng, quick):
+    """an abstract SP3 file (the `File` of lean/Midgard/Spec/Sp3File.lean) as plain Python data"""
     version = rng.choice("cd")
     pv = rng.choice("PPV")
-    nsat = rng.randint(1, 12 if quick else 90)
+    k = rng.random()
+    if k < 0.08:
+        nsat = 1
+    elif k < 0.16:
+        nsat = rng.randint(86, 99)                              # more than 85: extra + / ++ continuation lines
+    else:
+        nsat = rng.randint(1, 12 if quick else 90)
     nep = rng.randint(1, 6 if quick else 50)
+    if quick and nsat > 85:
+        nep = rng.randint(1, 2)
     sats = []
     while len(sats) < nsat:
         s = f"{rng.choice(SYS)}{rng.randint(1, 99):02d}"
         if s not in sats:
             sats.append(s)
     time_sys = rng.choice(["GPS", "GPS", "UTC"])
-    base_pos = rng.choice(["1.2500000", "2.0000000", "1.1000000"])
-    base_clk = rng.choice(["1.025000000", "2.000000000", "1.500000000"])
+    base_pos = rng.choice([12_500_000, 20_000_000, 11_000_000])            # F10.7, units 1e-7
+    base_clk = rng.choice([1_025_000_000, 2_000_000_000, 1_500_000_000])   # F12.9, units 1e-9
     t0 = datetime(rng.randint(1995, 2035), rng.randint(1, 12), rng.randint(1, 28), rng.randint(0, 23), rng.choice([0, 15, 30, 45, rng.randint(0, 59)]))
     frac0 = rng.choice([0, 0, 5_000_000, 1, 9_999_999, rng.randint(0, 9_999_999)])  # units of 1e-7 s
     if rng.random() < 0.3:  # several epochs inside one integral second
         step7 = rng.choice([1_000_000, 2_500_000, 5_000_000, 1, 3_333_333])
     else:
         step7 = rng.choice([900, 300, 30, 1]) * 10**7 + rng.choice([0, 0, 0, 5_000_000, rng.randint(0, 9_999_999)])
-    agency = rng.choice(["IGS", "COD", "ESA", "GFZ", "NGS", "JPL "]).strip()
+    agency = rng.choice(["IGS", "COD", "ESA", "GFZ", "NGS", "JPL"])
     coord = rng.choice(["IGb08", "IGS14", "IGS20", "ITR97", "WGS84"])
     orb = rng.choice(["HLM", "FIT", "EXT", "BCT"])
     data_used = rng.choice(["ORBIT", "d+D", "u+U", "__u+U"])
-    interval = Fraction(step7, 10**7)
-    interval_txt = f"{float(interval):14.8f}"
-    hdr = [f"#{version}{pv}{t0.year:4d} {t0.month:2d} {t0.day:2d} {t0.hour:2d} {t0.minute:2d} {t0.second + frac0 / 1e7:11.8f} {nep:7d} {data_used:>5} {coord:>5} {orb:>3} {agency:>4}"]
+    interval_txt = f"{float(Fraction(step7, 10**7)):.8f}"
     gps0 = datetime(1980, 1, 6)
     wk = (t0 - gps0).days // 7
     sow = (t0 - gps0 - timedelta(weeks=wk)).total_seconds() + frac0 / 1e7
     mjd = (t0 - datetime(1858, 11, 17)).days
-    hdr.append(f"## {wk:4d} {sow:15.8f} {interval_txt} {mjd:5d} {(t0.hour * 3600 + t0.minute * 60 + t0.second) / 86400:15.13f}")
+    line1 = [pv, str(t0.year), str(t0.month), str(t0.day), str(t0.hour), str(t0.minute), f"{t0.second + frac0 / 1e7:.8f}",
+             str(nep), data_used, coord, orb, agency]
+    line2 = [str(wk), f"{sow:.8f}", interval_txt, str(mjd), f"{(t0.hour * 3600 + t0.minute * 60 + t0.second) / 86400:.13f}"]
     ids = sats + ["  0"] * (-len(sats) % 17)
+    satlines = []
     for i in range(0, max(len(ids), 85), 17):
         chunk = ids[i:i + 17] if i < len(ids) else ["  0"] * 17
-        hdr.append(("+  %3d   " % nsat if i == 0 else "+        ") + "".join(chunk))
+        satlines.append(("p", (" %3d   " % nsat if i == 0 else "       ") + "".join(chunk)))
     for i in range(0, max(len(ids), 85), 17):
-        hdr.append("++       " + "".join(f"{rng.randint(0, 12):3d}" for _ in range(17)))
-    ft = rng.choice(["G ", "M ", "R ", "E "])
-    hdr.append(f"%c {ft} cc {time_sys} ccc cccc cccc cccc cccc ccccc ccccc ccccc ccccc")
-    hdr.append("%c cc cc ccc ccc cccc cccc cccc cccc ccccc ccccc ccccc ccccc")
-    hdr.append(f"%f {base_pos:>10} {base_clk:>12}  0.00000000000  0.000000000000000")
-    hdr.append("%f  0.0000000  0.000000000  0.00000000000  0.000000000000000")
-    hdr.append("%i    0    0    0    0      0      0      0      0         0")
-    hdr.append("%i    0    0    0    0      0      0      0      0         0")
+        satlines.append(("pp", "       " + "".join(f"{rng.randint(0, 12):3d}" for _ in range(17))))
+    ft = rng.choice(["G", "M", "R", "E"])
+    tail = [("i", "    0    0    0    0      0      0      0      0         0")] * 2
     for _ in range(rng.randint(4, 6) if version == "c" else rng.randint(0, 8)):
-        hdr.append("/* " + common.digest(rng.random())[:rng.randint(0, 12)] + " comment")
-    lines = list(hdr)
-    recs = []
+        tail.append(("c", " " + common.digest(rng.random())[:rng.randint(0, 12)] + " comment"))
+    epochs = []
     for k in range(nep):
         tot7 = frac0 + k * step7
         t = t0 + timedelta(seconds=tot7 // 10**7)
-        f7 = tot7 % 10**7
-        lines.append(f"*  {t.year:4d} {t.month:2d} {t.day:2d} {t.hour:2d} {t.minute:2d} {t.second:2d}.{f7:07d}0")
+        recs = []
         for s in sats:
-            cells, exp = [], {}
-            for ax in "xyz":
-                txt, v = f14_6(rng, "pos")
-                cells.append(txt)
-                exp["p" + ax] = v
-            txt, v = f14_6(rng, "clk")
-            cells.append(txt)
-            exp["clk"] = v
-            line = "P" + s + "".join(cells)
+            r = {"sat": s, "x": micro(rng, "pos"), "y": micro(rng, "pos"), "z": micro(rng, "pos"), "clk": micro(rng, "clk"),
+                 "acc": None, "pad80": rng.random() >= 0.7, "extras": []}
             cut = rng.random()
-            codes = {}
-            if cut < 0.35:
-                pass  # nothing after the clock
-            else:
-                sd = []
-                for ax in "xyz":
-                    c = None if rng.random() < 0.15 else rng.randint(0, 30)
-                    codes["s" + ax] = c
-                    sd.append("  " if c is None else f"{c:2d}")
-                cc = None if rng.random() < 0.15 else rng.randint(0, 200)
-                codes["sclk"] = cc
-                line += " " + " ".join(sd) + " " + ("   " if cc is None else f"{cc:3d}")
-                if cut > 0.6:
-                    line += " " + rng.choice(" E") + rng.choice(" P") + "  " + rng.choice(" M") + rng.choice(" P")
-            exp.update({k2: codes.get(k2) for k2 in ("sx", "sy", "sz", "sclk")})
-            lines.append(line.rstrip() if rng.random() < 0.7 else line.ljust(80))
-            recs.append({"t": t, "f7": f7, "sat": s, **exp})
+            if cut >= 0.35:
+                acc = {c: (None if rng.random() < 0.15 else rng.randint(0, 30)) for c in ("sx", "sy", "sz")}
+                acc["sclk"] = None if rng.random() < 0.15 else rng.randint(0, 200)
+                acc["flags"] = [rng.choice(["", "E"]), rng.choice(["", "P"]), rng.choice(["", "M"]), rng.choice(["", "P"])] if cut > 0.6 else [""] * 4
+                r["acc"] = acc
             if rng.random() < 0.1:
-                lines.append(f"EP{s}  {rng.randint(0, 9999):4d} {rng.randint(0, 9999):4d} {rng.randint(0, 9999):4d} {rng.randint(0, 9999999):7d}")
+                r["extras"].append(("EP", f"{s}  {rng.randint(0, 9999):4d} {rng.randint(0, 9999):4d} {rng.randint(0, 9999):4d} {rng.randint(0, 9999999):7d}"))
             if pv == "V":
-                lines.append("V" + s + "".join(f"{rng.uniform(-30000, 30000):14.6f}" for _ in range(4)))
+                r["extras"].append(("V", s + "".join(f"{rng.uniform(-30000, 30000):14.6f}" for _ in range(4))))
                 if rng.random() < 0.1:
-                    lines.append(f"EV{s}  {rng.randint(0, 9999):4d} {rng.randint(0, 9999):4d} {rng.randint(0, 9999):4d} {rng.randint(0, 9999999):7d}")
-    lines.append("EOF")
-    meta = {"version": version, "pv_flag": pv, "time_sys": time_sys, "coord_sys": coord, "agency": agency,
-            "num_epoch": str(nep), "epoch_interval": interval_txt.strip(), "orb_type": orb, "data_used": data_used.strip(),
-            "file_type": ft.strip()}
-    return {"text": "\n".join(lines) + "\n", "recs": recs, "meta": meta, "base_pos": Fraction(base_pos), "base_clk": Fraction(base_clk)}
+                    r["extras"].append(("EV", f"{s}  {rng.randint(0, 9999):4d} {rng.randint(0, 9999):4d} {rng.randint(0, 9999):4d} {rng.randint(0, 9999999):7d}"))
+            recs.append(r)
+        epochs.append({"t": t, "s7": t.second * 10**7 + tot7 % 10**7, "recs": recs})
+    return {"version": version, "line1": line1, "line2": line2, "satlines": satlines, "ft": ft, "ts": time_sys,
+            "bp": base_pos, "bc": base_clk, "tail": tail, "epochs": epochs}
+
+
+def f14_6(n):
+    a = abs(n)
+    return f"{'-' if n < 0 else ''}{a // 10**6}.{a % 10**6:06d}".rjust(14)
+
+
+HDR_TAG = {"p": "+ ", "pp": "++", "i": "%i", "c": "/*"}
+
+
+def py_render(F):
+    """the independent writer: SP3-c/d record formats typed from the format documents (f-strings)"""
+    a, b = F["line1"], F["line2"]
+    L = [f"#{F['version']}{a[0]:1}{a[1]:>4} {a[2]:>2} {a[3]:>2} {a[4]:>2} {a[5]:>2} {a[6]:>11} {a[7]:>7} {a[8]:>5} {a[9]:>5} {a[10]:>3} {a[11]:>4}",
+         f"## {b[0]:>4} {b[1]:>15} {b[2]:>14} {b[3]:>5} {b[4]:>15}"]
+    L += [HDR_TAG[k] + t for k, t in F["satlines"]]
+    bp, bc = F["bp"], F["bc"]
+    L += [f"%c {F['ft']:<2} cc {F['ts']:<3} ccc cccc cccc cccc cccc ccccc ccccc ccccc ccccc",
+          "%c cc cc ccc ccc cccc cccc cccc cccc ccccc ccccc ccccc ccccc",
+          f"%f {f'{bp // 10**7}.{bp % 10**7:07d}':>10} {f'{bc // 10**9}.{bc % 10**9:09d}':>12}  0.00000000000  0.000000000000000",
+          "%f  0.0000000  0.000000000  0.00000000000  0.000000000000000"]
+    L += [HDR_TAG[k] + t for k, t in F["tail"]]
+    for e in F["epochs"]:
+        t = e["t"]
+        L.append(f"*  {t.year:4d} {t.month:2d} {t.day:2d} {t.hour:2d} {t.minute:2d} {e['s7'] // 10**7:2d}.{e['s7'] % 10**7:07d}0")
+        for r in e["recs"]:
+            line = f"P{r['sat']:<3}" + f14_6(r["x"]) + f14_6(r["y"]) + f14_6(r["z"]) + f14_6(r["clk"])
+            acc = r["acc"]
+            if acc is not None:
+                c2 = lambda c, w: " " * w if c is None else f"{c:{w}d}"
+                line += f" {c2(acc['sx'], 2)} {c2(acc['sy'], 2)} {c2(acc['sz'], 2)} {c2(acc['sclk'], 3)}"
+                fl = [f or " " for f in acc["flags"]]
+                line += f" {fl[0]}{fl[1]}  {fl[2]}{fl[3]}"
+            L.append(line.ljust(80) if r["pad80"] else line.rstrip())
+            L += [k + t for k, t in r["extras"]]
+    L.append("EOF")
+    return "\n".join(L) + "\n"
+
+
+def wire(F):
+    """the abstract file on the driver's line protocol (see lean/Driver/C13.lean)"""
+    o = [hexs(F["version"])] + [hexs(c) for c in F["line1"]] + [hexs(c) for c in F["line2"]]
+    o.append(str(len(F["satlines"])))
+    for k, t in F["satlines"]:
+        o += [k, hexs(t)]
+    o += [hexs(F["ft"]), hexs(F["ts"]), str(F["bp"]), str(F["bc"]), str(len(F["tail"]))]
+    for k, t in F["tail"]:
+        o += [k, hexs(t)]
+    o.append(str(len(F["epochs"])))
+    opt = lambda c: "-" if c is None else str(c)
+    for e in F["epochs"]:
+        t = e["t"]
+        o += [str(t.year), str(t.month), str(t.day), str(t.hour), str(t.minute), str(e["s7"]), str(len(e["recs"]))]
+        for r in e["recs"]:
+            o += [hexs(r["sat"]), str(r["x"]), str(r["y"]), str(r["z"]), str(r["clk"])]
+            acc = r["acc"]
+            if acc is None:
+                o.append("0")
+            else:
+                o += ["1", opt(acc["sx"]), opt(acc["sy"]), opt(acc["sz"]), opt(acc["sclk"])] + [hexs(f) for f in acc["flags"]]
+            o += ["1" if r["pad80"] else "0", str(len(r["extras"]))]
+            for k, t in r["extras"]:
+                o += [k, hexs(t)]
+    return " ".join(o)
+
+
+def gen_file(rng, quick):
+    """abstract file -> what the oracle needs (the generating orbit model) + the independent writer's text"""
+    F = gen_model(rng, quick)
+    recs = []
+    for e in F["epochs"]:
+        t, f7 = e["t"], e["s7"] % 10**7
+        for r in e["recs"]:
+            acc = r["acc"] or {}
+            recs.append({"t": t, "f7": f7, "sat": r["sat"],
+                         **{"p" + ax: (None if r[ax] == 0 else Fraction(r[ax], 10**6)) for ax in "xyz"},
+                         "clk": None if r["clk"] == 999_999_999_999 else Fraction(r["clk"], 10**6),
+                         "sx": acc.get("sx"), "sy": acc.get("sy"), "sz": acc.get("sz"), "sclk": acc.get("sclk")})
+    a, b = F["line1"], F["line2"]
+    meta = {"version": F["version"], "pv_flag": a[0], "time_sys": F["ts"], "coord_sys": a[9], "agency": a[11],
+            "num_epoch": a[7], "epoch_interval": b[2], "orb_type": a[10], "data_used": a[8], "file_type": F["ft"]}
+    return {"model": F, "text": py_render(F), "recs": recs, "meta": meta,
+            "base_pos": Fraction(F["bp"], 10**7), "base_clk": Fraction(F["bc"], 10**9)}
 
 
 # ------------------------------------------------------------------------------------------
@@ -357,24 +415,56 @@ def oracle_dataset(ctx, case, f, p, dset_res):
 def one_file(ctx, impl, drv, f, corpus=False):
     case = {"file": f["text"]}
     ctx.case({"t": common.digest(f["text"])}, nontrivial=True)
+    model_json = None
     if not corpus:
+        F = f["model"]
+        nsat = len(F["epochs"][0]["recs"])
         ctx.count(f"version:{f['meta']['version']}{f['meta']['pv_flag']}")
         ctx.count(f"time_sys:{f['meta']['time_sys']}")
         ctx.count("fractional-epochs" if any(r["f7"] for r in f["recs"]) else "whole-second-epochs")
         if len({r["t"] for r in f["recs"]}) < len({(r["t"], r["f7"]) for r in f["recs"]}):
-            ctx.count("epochs-sharing-a-second")
+            ctx.count("epochs-sharing-a-second (spacing below 1 s)")
+        ctx.count("satellites:1" if nsat == 1 else "satellites:>=86 (+/++ continuation lines)" if nsat >= 86 else "satellites:2..85")
+        ctx.count(f"+/++ header lines:{len(F['satlines'])}")
+        kinds = {k for e in F["epochs"] for r in e["recs"] for k, _ in r["extras"]}
+        for k in sorted(kinds):
+            ctx.count(f"files with {k} lines")
+        ctx.count("records", len(f["recs"]))
+        ctx.count("records:cut after clock", sum(1 for e in F["epochs"] for r in e["recs"] if r["acc"] is None))
+        ctx.count("records:padded to 80 columns", sum(1 for e in F["epochs"] for r in e["recs"] if r["pad80"]))
+        ctx.count("records:position sentinel", sum(1 for r in f["recs"] if None in (r["px"], r["py"], r["pz"])))
+        ctx.count("records:clock sentinel", sum(1 for r in f["recs"] if r["clk"] is None))
+        ctx.count("records:blank accuracy code", sum(1 for e in F["epochs"] for r in e["recs"] if r["acc"] and None in (r["acc"]["sx"], r["acc"]["sy"], r["acc"]["sz"], r["acc"]["sclk"])))
+        # the abstract file through the spec writer and the model parser (the functions `file_roundtrip` is about)
+        a = drv.ask1("c13 model " + wire(F))
+        if a == "bad-op":
+            ctx.disagree("sp3 abstract file not accepted by the driver", case, a, "")
+            return
+        m = json.loads(a)
+        if not m["wf"]:
+            ctx.disagree("sp3 generated file does not satisfy the theorem's well-formedness predicate (generator outside File.wf)", case, "wf=false", "")
+        elif not m["thm"]:
+            ctx.disagree("sp3 file_roundtrip instance: compiled parseFile (render F) differs from expectedMeta/expectedEntries", case, "thm=false", "")
+        lean_text = common.unhex(m["text"])
+        if lean_text != f["text"]:
+            i = next((k for k, (x, y) in enumerate(zip(lean_text.split("\n"), f["text"].split("\n"))) if x != y), -1)
+            ctx.disagree("sp3 spec writer (Lean render) vs independent writer (Python)", case,
+                         lean_text.split("\n")[i] if i >= 0 else f"{len(lean_text)} characters", f["text"].split("\n")[i] if i >= 0 else f"{len(f['text'])} characters")
+        model_json = m["parse"]
     st, p = impl.parse(f["text"])
-    a = drv.ask1(f"c13 file {hexs(f['text'])}")
+    if model_json is None:
+        a = drv.ask1(f"c13 file {hexs(f['text'])}")
+        model_json = "RAISES" if a == "RAISES" else a if a == "bad-op" else json.loads(a)
     if st == "raises":
         ctx.violate(f"raises:{p.split(':')[0]}", f"well-formed file makes the parser raise {p}", case)
-        if a != "RAISES":
+        if model_json != "RAISES":
             ctx.disagree("sp3 (model returns, code raises)", case, "value", p)
         return
     dres = impl.dataset(p)
-    if a in ("RAISES", "bad-op"):
-        ctx.disagree("sp3 (model raises, code returns)", case, a, "value")
+    if model_json in ("RAISES", "bad-op"):
+        ctx.disagree("sp3 (model raises, code returns)", case, model_json, "value")
     else:
-        dd = compare_model(ctx, case, p, dres, json.loads(a))
+        dd = compare_model(ctx, case, p, dres, model_json)
         if dd:
             ctx.disagree("sp3 entries / meta / dataset epoch", case, dd, "")
     if not corpus:
@@ -391,13 +481,15 @@ def run(ctx: Ctx):
     rng = ctx.rng
     quick = not ctx.thorough
     impl = Impl()
-    ctx.rule = ("SP3-c and SP3-d files rendered by an independent writer: 1..90 satellites of any constellation letter, "
+    ctx.rule = ("abstract SP3-c / SP3-d files (Spec/Sp3File.lean `File`) rendered by the Lean spec writer AND by an independent Python writer (texts must be equal), "
+                "each checked against File.wf and the compiled instance of file_roundtrip, then parsed by the real parser: 1, 2..90 and 86..99 satellites of any constellation letter (extra +/++ header lines), "
                 "1..50 epochs with whole and fractional (1e-7 s) seconds and steps incl. sub-second steps (0.1/0.25/0.5 s, several epochs per integral second), P and P+V files with EP/EV lines, "
                 "0.000000 / 999999.999999 sentinels and the values next to them (+-0.000001, +-0.000002, 999999.999998, -999999.999999), blank accuracy codes, records cut after the clock or after the codes, "
                 "GPS and UTC time systems, comment/%i/+/++ header lines; every case non-trivial; distinct by file text")
     ctx.trusted += ["float(text) vs correctly rounded double of the exact rational; products with unit factors compared to 4e-16 relative, "
                     "base**code to 1e-13 relative (floating-point error measured, not proved)",
-                    "Time(datetime)+TimeDelta(seconds) of midgard.data.time taken as given (C02/C03); dataset epoch compared to 1e-8 s"]
+                    "Time(datetime)+TimeDelta(seconds) of midgard.data.time taken as given (C02/C03); dataset epoch compared to 1e-8 s",
+                    "the driver's wire parser for abstract files (lean/Driver/C13.lean, namespace Wire); the Lean spec writer is compared byte for byte with the independent Python writer on every generated file"]
     ctx.assumptions += ["seconds fields carry at most 7 decimals (the 8th printed digit is 0), so '{:010.7f}' is exact",
                         "no duplicate epochs, no empty lines (outside 'well-formed')"]
     try:
